@@ -282,6 +282,13 @@ def generate(rng, tier):
             yield again
     for _ in range(600 if thorough else 200):
         yield dec_case(rng)
+    # large PDUs (17 .. 70 KB) on a link under back-pressure while the peer keeps the Receiver answering: the octets on the
+    # wire are whole PDUs, each as announced (the wire-discipline monitor of C15 on scenarios with large messages only)
+    from corr import c15
+    for k in range(6 if thorough else 3):
+        sc = dict(stalls=3, mode='TRANSCEIVER', horizon=20.0, hook=('none', 'sending', 'none')[k % 3], n_msgs=6, n_in=10, drops=0,
+                  reject_first=False, stop_at=19.5003, seed=rng.randrange(10 ** 9), big=True)
+        yield c15.case_of(sc)
     # what the Sender puts on the wire for messages it segments itself (SAR parameters or a concatenation header it builds,
     # references around the 8-bit wrap): an independent receiver must read the text the application supplied
     from corr import c08
@@ -293,6 +300,9 @@ def generate(rng, tier):
 
 
 def replay(inp):
+    if inp['op'] == 'mon':
+        from corr import c15
+        return c15.case_of(inp['sc'])
     if inp['op'] == 'session-seg':
         return Case('# ' + str(inp)[:200], '', None, None, inp)
     if inp['op'] == 'dec':
